@@ -141,7 +141,7 @@ DEFAULT = {
     "pn_len": 2, "pn_start": 0, "pn_gap": 1, "coalesce": "separate", "retry": False, "zero_rtt": False,
     "ch_split": None, "ncid": None, "grease": False, "token": b"",
     "script": [("c", [(0, 100)]), ("s", [(0, 300)]), ("c", [(4, 50)]), ("s", [(0, 20)])],
-    "before": (), "after": (), "stream_flags": None, "early_secret_in_log": None, "sh_split": None,
+    "before": (), "after": (), "stream_flags": None, "early_secret_in_log": None, "sh_split": None, "tail": None,
 }
 
 
@@ -355,6 +355,11 @@ class Conn:
                     self.dcid_for["s"] = new_c
             pk, data = one_rtt(d, specs)
             self.dgram(d, [pk], stream=data, tag=f"1rtt-{i}")
+        if s["tail"]:
+            # a CRYPTO-only 1-RTT datagram at the very end (e.g. a NewSessionTicket), from the given side
+            td = s["tail"]
+            nst = hs_msg(4, rng.randbytes(60))
+            self.dgram(td, [self.short_pkt(td, qf.crypto(0, nst)[0] + ack)], tag="tail-crypto")
 
     def truth(self):
         """[(dir, stream bytes)] one entry per datagram that carried stream data"""
